@@ -983,3 +983,52 @@ def bounded_roundtrip(pid, tier, seed):
             (len(QUOTING_VALUES), len(QUOTING_TEMPLATES), 4 if tier == "quick" else 5, evals), "rule": "distinct = script text",
             "evaluations": evals, "distinct": len(distinct), "samples": samples, "exhaustive": False,
             "violations": findings.violations(pid, "roundtrip", (pid,))}
+
+
+# ----------------------------------------------------------------------------- C07: removing a needed extension
+
+def bounded_removal(pid, tier, seed):
+    """C07 (converse clause): every generated valid script, with one capability taken out of its require at a time:
+    if the reference says an extension is now missing, the parser must reject the script with the message
+    `extension '<name>' not loaded` naming the FIRST missing extension in script order; if the capability was not
+    needed, the script stays accepted"""
+    from bounded import sieve_gen as g
+    evals = 0
+    distinct = set()
+    findings = Findings()
+    samples = []
+    h = len(g.require_all())
+    S = g.scripts(seed or 1)
+    if tier == "quick":
+        S = S[::3]
+    for toks in S:
+        body = toks[h:]
+        base = ref.verdict_tokens(ref.lex(b" ".join(toks)))
+        if base.status != "valid" or real_parse(g.render(toks, 0))["verdict"] is not True:
+            continue      # (scripts the parser rejects although they are valid are C01's business: listed findings there)
+        for drop in g.ALL_CAPS:
+            caps = [c for c in g.ALL_CAPS if c != drop]
+            t2 = [b"require"] + g._list_tokens([b'"%s"' % c.encode() for c in caps]) + [b";"] + body
+            for style in ((0,) if tier == "quick" else (0, 5)):
+                data = g.render(t2, style)
+                evals += 1
+                distinct.add(data)
+                v2 = ref.verdict(data)
+                r = real_parse(data)
+                if r["verdict"] == "exception":
+                    findings.note((pid, "removal.exception"), data.decode("latin-1"), r["exc"])
+                    continue
+                if v2.status == "valid":
+                    if r["verdict"] is not True:
+                        findings.note((pid, "removal.unneeded-capability-removed-but-rejected"), data.decode("latin-1"), r.get("error"))
+                elif v2.status == "invalid" and v2.reason == "extension-not-loaded":
+                    want = "extension '%s' not loaded" % v2.missing_ext
+                    if r["verdict"] is True:
+                        findings.note((pid, "removal.accepted-without-%s" % v2.missing_ext), data.decode("latin-1"), "accepted although %r is used and not required" % v2.missing_ext)
+                    elif not (r.get("error") or "").endswith(want):
+                        findings.note((pid, "removal.message"), data.decode("latin-1"), "error %r, expected ...%r" % (r.get("error"), want))
+                    elif len(samples) < 3:
+                        samples.append({"script": data.decode("latin-1")[-90:], "removed": drop, "error": r.get("error")})
+    return {"name": "capability-removal", "bound": "%d generated valid scripts x each of %d capabilities removed from the require in turn: %d scripts"
+            % (len(S), len(g.ALL_CAPS), evals), "rule": "distinct = script bytes", "evaluations": evals, "distinct": len(distinct),
+            "samples": samples, "exhaustive": True, "violations": findings.violations(pid, "removal", (pid,))}
